@@ -31,30 +31,31 @@ check was strengthened (each described below).**
 ''' % (n, n-len(missed), len(missed))
 for r in rows:
     sec+='| `%s` | %s | %s | %s | %s |\n' % r
+sec+='\nWhat the misses taught — each bullet is a seeded change the quick check missed when it was first tried, with what was changed; all are now caught on every run:\n\n'
+for r in rows:
+    if r[3]!='yes':
+        sec+='* `%s` (%s) — %s\n' % (r[0], r[1], r[4])
 sec+='''
-What the misses taught (all four now caught on every run):
+Three of these lessons are general and worth stating once:
 
-* `C14-fix-first-index-unaligned` — the `Fix` alphabet contained no fix-up aimed at a day whose date also
-  occurs *earlier* in the table as the target field of make-up-day records, so the unaligned first `strings.Index`
-  hit never happened. Four such calls were added (replace/remove 2002-01-01, remove 2006-05-01, replace 2014-10-04).
-* `C14-workday-table-cached-per-year` — workday stepping was only checked on the pristine table. Each `Fix`
-  shard (a fresh process per first operation, so no harness reset is involved) now performs walk → `Fix` → walk
-  around the affected days and compares with the record set as it is after the fix-up.
-* `C08-xiaoyun-negative-index` — the object walk visited annual/minor fortunes of the first two great periods
-  only; the panic needs a late period of a backward chart. Every period now contributes its first, last and a
-  rotating entry (every third later period per state, rotating with the day number).
-* `C09-lazy-monthsinyear-memo` — a read-only accessor of a shared `LunarYear` memoising into an unsynchronised
-  field. No scenario called that accessor on a shared object, and once one did, the free-running race pass saw the
-  first-access race in only 1 of 3 runs (it is sampling by nature — which is why it was never meant to be the
-  deciding step). Added a **deterministic accessor-purity check** inside C09: for 26 object types and every
-  exported zero-argument method, a deep snapshot of the object's private state (reflection over unexported fields,
-  depth 4) is taken before and after the call on a fresh instance under the scheduler; a change with *no lock
-  operation during the call* is an unsynchronised write by a read-only accessor, i.e. a data race as soon as two
-  goroutines share the object. A write accompanied by lock operations (a properly synchronised memo, `sync.Once`)
-  is not judged there and is left to the race pass, so a correct memo cannot raise an alarm. The race pass also
-  gained shared-accessor sweeps (8 goroutines, rotated method order, fresh instance per repetition).
+* **History dependence hides from ordered sweeps.** Every date sweep converts civil→lunar first and walks the
+  years in ascending order, so the one-slot cache always holds "the right" year. Three independent seeds
+  exploited exactly that (a constructor or table build that peeks at whatever neighbouring table is cached, made
+  visible by the year-18/19 table disagreement that is itself a known finding). C09 now primes the cache with
+  Y−1, Y+1 and Y+2 before the same calls for every year of the year set.
+* **A harness reset hook is itself a history.** The first `Fix` search reset the holiday table through the
+  `VerifReset` hook between histories. A library-internal lookup memo survives that reset, which made the search
+  *detect* a stale-memo seed for the wrong reason and would have raised a false alarm on a correct memo that is
+  invalidated inside `Fix`. Every `Fix` history now runs in its own fresh process, observing all views before the
+  first fix-up and after each one.
+* **Sampling by nature stays sampling.** The free-running race pass found a first-access race in 1 of 3 runs. The
+  deciding check for "read-only accessors of a shared object do not race" is now deterministic: the accessor-purity
+  check (deep snapshot of the private state before/after every exported zero-argument method of 26 object types;
+  a write with no lock operation during the call is an unsynchronised write). A write accompanied by lock
+  operations (a correct `sync.Once` memo) is not judged there — verified with two benign refactors (a
+  double-checked RWMutex map cache in `NewLunarYear`, a `sync.Once` memo in `GetMonthsInYear`): no alarm.
 
-A fifth lesson came from a selftest mutant rather than a seed: a library panic that escaped a check's own `try`
+A further lesson came from a selftest mutant rather than a seed: a library panic that escaped a check's own `try`
 wrappers killed the worker (exit 2, "ERROR") instead of producing a verdict. Workers now convert an uncaught
 panic whose stack passes through library code into a violation of the property under check
 (`<id>:uncaught-panic:<site>`); a panic with no library frame stays a harness error.
